@@ -14,6 +14,11 @@ pub enum Arg {
     N(STy, u64),
     Ip(IpAddr),
     Ch(char),
+    /// a list built by the HOST (`List<u64>` / `List<RotoString>` / `List<char>`)
+    /// and passed into the compiled function: empty, singleton and longer lists
+    LU(Vec<u64>),
+    LS(Vec<String>),
+    LC(Vec<char>),
 }
 
 fn hex(s: &str) -> String {
@@ -28,6 +33,9 @@ impl Arg {
             Arg::Ip(IpAddr::V4(a)) => format!("ip4:{}", u32::from(*a)),
             Arg::Ip(IpAddr::V6(a)) => format!("ip6:{}", u128::from(*a)),
             Arg::Ch(c) => format!("c:{}", *c as u32),
+            Arg::LU(v) => format!("lu:{}", v.iter().map(|x| x.to_string()).collect::<Vec<_>>().join(",")),
+            Arg::LS(v) => format!("ls:{}", v.iter().map(|x| format!("x{}", hex(x))).collect::<Vec<_>>().join(",")),
+            Arg::LC(v) => format!("lc:{}", v.iter().map(|x| (*x as u32).to_string()).collect::<Vec<_>>().join(",")),
         }
     }
     pub fn decode(s: &str) -> Result<Arg, String> {
@@ -48,6 +56,15 @@ impl Arg {
             "ip4" => Arg::Ip(IpAddr::V4(Ipv4Addr::from(v.parse::<u32>().map_err(|_| "ip4")?))),
             "ip6" => Arg::Ip(IpAddr::V6(Ipv6Addr::from(v.parse::<u128>().map_err(|_| "ip6")?))),
             "c" => Arg::Ch(char::from_u32(v.parse().map_err(|_| "char")?).ok_or("char")?),
+            "lu" => Arg::LU(v.split(',').filter(|x| !x.is_empty()).map(|x| x.parse::<u64>().map_err(|_| "lu".to_string())).collect::<Result<_, _>>()?),
+            "ls" => Arg::LS(v.split(',').filter(|x| !x.is_empty()).map(|x| {
+                let h = x.strip_prefix('x').ok_or("ls element")?;
+                let b: Vec<u8> = (0..h.len() / 2).map(|i| u8::from_str_radix(&h[2 * i..2 * i + 2], 16).unwrap()).collect();
+                String::from_utf8(b).map_err(|e| e.to_string())
+            }).collect::<Result<_, String>>()?),
+            "lc" => Arg::LC(v.split(',').filter(|x| !x.is_empty()).map(|x| {
+                x.parse::<u32>().ok().and_then(char::from_u32).ok_or("lc element".to_string())
+            }).collect::<Result<_, String>>()?),
             _ => return Err(format!("unknown arg kind {k}")),
         })
     }
@@ -79,6 +96,21 @@ impl FromArg for IpAddr {
 impl FromArg for char {
     fn from_arg(a: &Arg) -> Self {
         match a { Arg::Ch(c) => *c, other => panic!("argument kind: {other:?}") }
+    }
+}
+impl FromArg for List<u64> {
+    fn from_arg(a: &Arg) -> Self {
+        match a { Arg::LU(v) => v.iter().copied().collect(), other => panic!("argument kind: {other:?}") }
+    }
+}
+impl FromArg for List<RotoString> {
+    fn from_arg(a: &Arg) -> Self {
+        match a { Arg::LS(v) => v.iter().map(|x| RotoString::from(x.as_str())).collect(), other => panic!("argument kind: {other:?}") }
+    }
+}
+impl FromArg for List<char> {
+    fn from_arg(a: &Arg) -> Self {
+        match a { Arg::LC(v) => v.iter().copied().collect(), other => panic!("argument kind: {other:?}") }
     }
 }
 
@@ -161,6 +193,9 @@ macro_rules! sigs {
 
 type S = RotoString;
 type Ip = IpAddr;
+type LU = List<u64>;
+type LS = List<RotoString>;
+type LC = List<char>;
 
 pub fn make_caller(pkg: &mut Package<NoCtx>, sig: &str) -> Result<Caller, String> {
     sigs!(pkg, sig;
@@ -184,6 +219,15 @@ pub fn make_caller(pkg: &mut Package<NoCtx>, sig: &str) -> Result<Caller, String
         "u64,u64>ou64" => (u64, u64) -> Option<u64>, "u64,u64>oS" => (u64, u64) -> Option<S>, "u64,u64>b" => (u64, u64) -> bool,
         "u64,u64>lu64" => (u64, u64) -> List<u64>, "u64,u64,u64>lu64" => (u64, u64, u64) -> List<u64>,
         "u64,u64,u64>lS" => (u64, u64, u64) -> List<S>,
+        // host-built lists as arguments
+        "lu>u64" => (LU) -> u64, "lu>b" => (LU) -> bool, "lu>lu" => (LU) -> LU,
+        "lu,u64>ou64" => (LU, u64) -> Option<u64>, "lu,u64>b" => (LU, u64) -> bool, "lu,u64>lu" => (LU, u64) -> LU,
+        "lu,u64,u64>lu" => (LU, u64, u64) -> LU, "lu,lu>lu" => (LU, LU) -> LU, "lu,lu>b" => (LU, LU) -> bool,
+        "lS>u64" => (LS) -> u64, "lS>b" => (LS) -> bool, "lS>lS" => (LS) -> LS, "lS,S>S" => (LS, S) -> S,
+        "lS,u64>oS" => (LS, u64) -> Option<S>, "lS,S>b" => (LS, S) -> bool, "lS,S>ou64" => (LS, S) -> Option<u64>,
+        "lS,S>lS" => (LS, S) -> LS, "lS,lS>lS" => (LS, LS) -> LS, "lS,lS>b" => (LS, LS) -> bool,
+        "lS,u64,u64>lS" => (LS, u64, u64) -> LS,
+        "lc>S" => (LC) -> S, "lc>u64" => (LC) -> u64,
     )
 }
 
@@ -200,6 +244,10 @@ pub struct Case {
     pub args: Vec<Arg>,
     /// request to the Lean driver (None: no model; crash oracle only)
     pub lean: Option<String>,
+    /// run alone in its own worker with a short timeout: the case passes the
+    /// same list twice (or otherwise could make a built-in wait for itself),
+    /// so a hang must cost seconds, not a batch timeout
+    pub solo: bool,
 }
 
 const PW: u32 = usize::BITS;
@@ -263,8 +311,14 @@ impl Tab {
            class: impl Into<String>, args: Vec<Arg>, lean: Option<String>) {
         self.out.push(Case {
             name, covers: covers.to_vec(), id: id.to_string(), src: src.to_string(), sig,
-            class: class.into(), args, lean,
+            class: class.into(), args, lean, solo: false,
         });
+    }
+    /// mark the cases added since `from` as solo
+    fn solo_since(&mut self, from: usize) {
+        for c in &mut self.out[from..] {
+            c.solo = true;
+        }
     }
 }
 
@@ -290,6 +344,7 @@ pub fn cases(seed: u64, thorough: bool) -> Vec<Case> {
     prefixes(&mut t, thorough);
     strings(&mut t, &mut prng, thorough);
     lists(&mut t, thorough);
+    host_lists(&mut t, thorough);
     to_strings(&mut t, &mut prng, thorough);
     floats(&mut t, &mut prng, thorough);
     t.out
@@ -560,6 +615,189 @@ fn lists(t: &mut Tab, thorough: bool) {
             t.add("List.concat", base, "List.concat", &format!("{MK_U64}fn main(n: u64, m: u64) -> List[u64] {{ mk(n).concat(mk(m)) }}"), "u64,u64>lu64",
                 format!("{nc} other-len={m}"), vec![u(n), u(m)], Some(format!("c10 {PW} list_concat {n} {m}")));
         }
+    }
+}
+
+
+// ------------------------------------------------- lists passed in by the host
+
+/// List argument classes: empty / singleton / many (and the variants that
+/// matter for element handling: duplicates, a growth boundary, empty and
+/// multi-byte strings).  Every list-taking built-in meets every class.
+pub fn u64_lists(thorough: bool) -> Vec<(&'static str, Vec<u64>)> {
+    let mut v: Vec<(&'static str, Vec<u64>)> = vec![
+        ("empty", vec![]),
+        ("singleton", vec![7]),
+        ("many", vec![0, 10, 20, 30, 40]),
+        ("many-dups", vec![5, 5, 5]),
+        ("many-33", (0..33).map(|k| k * 3 + 1).collect()),
+    ];
+    if thorough {
+        v.push(("singleton-max", vec![u64::MAX]));
+        v.push(("many-1000", (0..1000).collect()));
+    }
+    v
+}
+
+pub fn str_lists(thorough: bool) -> Vec<(&'static str, Vec<&'static str>)> {
+    let mut v: Vec<(&'static str, Vec<&'static str>)> = vec![
+        ("empty", vec![]),
+        ("singleton-empty-string", vec![""]),
+        ("singleton", vec!["a"]),
+        ("many", vec!["a", "bc", "def", "g", "hi"]),
+        ("many-with-empty", vec!["a", "", "b"]),
+        ("many-all-empty", vec!["", ""]),
+        ("many-multibyte", vec!["h\u{e9}llo", "\u{65e5}\u{672c}", "x\u{1f600}"]),
+    ];
+    if thorough {
+        v.push(("many-9", vec!["0", "1", "2", "3", "4", "5", "6", "7", "8"]));
+    }
+    v
+}
+
+pub const SEPARATORS: [(&str, &str); 4] = [("", "sep-empty"), (",", "sep-1"), (", ", "sep-2"), ("\u{8001}", "sep-multibyte")];
+
+fn lu_tok(v: &[u64]) -> String {
+    Arg::LU(v.to_vec()).encode()
+}
+fn ls_tok(v: &[&str]) -> String {
+    Arg::LS(v.iter().map(|x| x.to_string()).collect()).encode()
+}
+fn ls(v: &[&str]) -> Arg {
+    Arg::LS(v.iter().map(|x| x.to_string()).collect())
+}
+
+fn host_lists(t: &mut Tab, thorough: bool) {
+    let ul = u64_lists(thorough);
+    let sl = str_lists(thorough);
+    // ---- List[u64] built by the host
+    for (lc, l) in &ul {
+        let n = l.len() as u64;
+        let c = format!("host-list {lc}");
+        let tok = lu_tok(l);
+        let la = Arg::LU(l.clone());
+        t.add("List.len", &[], "List.len.host", "fn main(l: List[u64]) -> u64 { l.len() }", "lu>u64", c.clone(), vec![la.clone()],
+            Some(format!("c10 {PW} hl len {tok}")));
+        t.add("List.capacity", &[], "List.capacity.host", "fn main(l: List[u64]) -> u64 { l.capacity() }", "lu>u64", c.clone(), vec![la.clone()],
+            Some(format!("c10 {PW} hl capacity {tok}")));
+        t.add("List.is_empty", &[], "List.is_empty.host", "fn main(l: List[u64]) -> bool { l.is_empty() }", "lu>b", c.clone(), vec![la.clone()],
+            Some(format!("c10 {PW} hl is_empty {tok}")));
+        t.add("List.get", &[], "List.for.host", "fn main(l: List[u64]) -> u64 { let s = 0; for x in l { s = s + x % 1000; } s }", "lu>u64", format!("{c} for-loop"),
+            vec![la.clone()], Some(format!("c10 {PW} hl forsum {tok}")));
+        let mark = t.out.len();
+        t.add("List.concat", &[], "List.concat.host.alias", "fn main(l: List[u64]) -> List[u64] { l.concat(l) }", "lu>lu", format!("{c} other=same-list"),
+            vec![la.clone()], Some(format!("c10 {PW} hl concat {tok} {tok}")));
+        t.add("List.concat", &[], "List.concat.host.alias-operator", "fn main(l: List[u64]) -> List[u64] { l + l }", "lu>lu", format!("{c} other=same-list"),
+            vec![la.clone()], Some(format!("c10 {PW} hl concat {tok} {tok}")));
+        t.add("List.get", &[], "List.eq.host.alias", "fn main(l: List[u64]) -> bool { l == l }", "lu>b", format!("{c} ==same-list"),
+            vec![la.clone()], Some(format!("c10 {PW} hl eq {tok} {tok}")));
+        t.add("List.contains", &["List.new", "List.push"], "List.contains.self-nested", "fn main(l: List[u64]) -> bool { let ll: List[List[u64]] = List.new(); ll.push(l); ll.contains(l) }",
+            "lu>b", format!("{c} list-of-lists contains its own element"), vec![la.clone()], Some("c10 64 hl eq lu: lu:".into()));
+        t.solo_since(mark);
+        for (i, il) in indices(n) {
+            t.add("List.get", &[], "List.get.host", "fn main(l: List[u64], i: u64) -> u64? { l.get(i) }", "lu,u64>ou64",
+                format!("{c} idx={il}"), vec![la.clone(), u(i)], Some(format!("c10 {PW} hl get {tok} {i}")));
+            for (j, jl) in indices(n) {
+                if i <= 2 || j <= 2 || i == n || j == n {
+                    t.add("List.swap", &[], "List.swap.host", "fn main(l: List[u64], i: u64, j: u64) -> List[u64] { l.swap(i, j); l }",
+                        "lu,u64,u64>lu", format!("{c} i={il} j={jl}"), vec![la.clone(), u(i), u(j)], Some(format!("c10 {PW} hl swap {tok} {i} {j}")));
+                }
+            }
+        }
+        let mut items: Vec<(u64, &str)> = vec![(1, "absent"), (u64::MAX, "absent-max")];
+        if let Some(x) = l.first() {
+            items.push((*x, "first"));
+        }
+        if let Some(x) = l.last() {
+            items.push((*x, "last"));
+        }
+        for (x, xl) in items {
+            t.add("List.index", &[], "List.index.host", "fn main(l: List[u64], x: u64) -> u64? { l.index(x) }", "lu,u64>ou64",
+                format!("{c} item={xl}"), vec![la.clone(), u(x)], Some(format!("c10 {PW} hl index {tok} {x}")));
+            t.add("List.contains", &[], "List.contains.host", "fn main(l: List[u64], x: u64) -> bool { l.contains(x) }", "lu,u64>b",
+                format!("{c} item={xl}"), vec![la.clone(), u(x)], Some(format!("c10 {PW} hl contains {tok} {x}")));
+        }
+        t.add("List.push", &[], "List.push.host", "fn main(l: List[u64], x: u64) -> List[u64] { l.push(x); l }", "lu,u64>lu", c.clone(),
+            vec![la.clone(), u(99)], Some(format!("c10 {PW} hl push {tok} 99")));
+        for (mc, m) in &ul {
+            let mt = lu_tok(m);
+            let ma = Arg::LU(m.clone());
+            t.add("List.concat", &[], "List.concat.host", "fn main(l: List[u64], m: List[u64]) -> List[u64] { l.concat(m) }", "lu,lu>lu",
+                format!("{c} other={mc}"), vec![la.clone(), ma.clone()], Some(format!("c10 {PW} hl concat {tok} {mt}")));
+            t.add("List.get", &[], "List.eq.host", "fn main(l: List[u64], m: List[u64]) -> bool { l == m }", "lu,lu>b",
+                format!("{c} =={mc}"), vec![la.clone(), ma.clone()], Some(format!("c10 {PW} hl eq {tok} {mt}")));
+        }
+    }
+    // ---- List[String] built by the host
+    for (lc, l) in &sl {
+        let n = l.len() as u64;
+        let c = format!("host-list {lc}");
+        let tok = ls_tok(l);
+        let la = ls(l);
+        for (sep, sc) in SEPARATORS {
+            t.add("List.join", &[], "List.join.host", "fn main(l: List[String], sep: String) -> String { l.join(sep) }", "lS,S>S",
+                format!("{c} {sc}"), vec![la.clone(), s(sep)], Some(format!("c10 {PW} hl join {tok} {}", xs(sep))));
+        }
+        t.add("List.len", &[], "List.len.host.String", "fn main(l: List[String]) -> u64 { l.len() }", "lS>u64", format!("{c} (String elements)"),
+            vec![la.clone()], Some(format!("c10 {PW} hl len {tok}")));
+        t.add("List.capacity", &[], "List.capacity.host.String", "fn main(l: List[String]) -> u64 { l.capacity() }", "lS>u64", format!("{c} (String elements)"),
+            vec![la.clone()], Some(format!("c10 {PW} hl capacity {tok}")));
+        t.add("List.is_empty", &[], "List.is_empty.host.String", "fn main(l: List[String]) -> bool { l.is_empty() }", "lS>b", format!("{c} (String elements)"),
+            vec![la.clone()], Some(format!("c10 {PW} hl is_empty {tok}")));
+        let mark = t.out.len();
+        t.add("List.concat", &[], "List.concat.host.String.alias", "fn main(l: List[String]) -> List[String] { l.concat(l) }", "lS>lS",
+            format!("{c} other=same-list (String elements)"), vec![la.clone()], Some(format!("c10 {PW} hl concat {tok} {tok}")));
+        t.add("List.get", &[], "List.eq.host.String.alias", "fn main(l: List[String]) -> bool { l == l }", "lS>b", format!("{c} ==same-list (String elements)"),
+            vec![la.clone()], Some(format!("c10 {PW} hl eq {tok} {tok}")));
+        t.solo_since(mark);
+        for (i, il) in indices(n) {
+            t.add("List.get", &[], "List.get.host.String", "fn main(l: List[String], i: u64) -> String? { l.get(i) }", "lS,u64>oS",
+                format!("{c} idx={il} (String elements)"), vec![la.clone(), u(i)], Some(format!("c10 {PW} hl get {tok} {i}")));
+        }
+        for (i, j) in [(0u64, 0u64), (0, 1), (0, n), (n, 0), (0, n.saturating_sub(1)), (u64::MAX, 0), (1, 2)] {
+            t.add("List.swap", &[], "List.swap.host.String", "fn main(l: List[String], i: u64, j: u64) -> List[String] { l.swap(i, j); l }",
+                "lS,u64,u64>lS", format!("{c} i={i} j={j} (String elements)"), vec![la.clone(), u(i), u(j)], Some(format!("c10 {PW} hl swap {tok} {i} {j}")));
+        }
+        let mut items: Vec<(&str, &str)> = vec![("zz", "absent"), ("", "empty-string")];
+        if let Some(x) = l.first() {
+            items.push((x, "first"));
+        }
+        if let Some(x) = l.last() {
+            items.push((x, "last"));
+        }
+        for (x, xl) in items {
+            t.add("List.index", &[], "List.index.host.String", "fn main(l: List[String], x: String) -> u64? { l.index(x) }", "lS,S>ou64",
+                format!("{c} item={xl} (String elements)"), vec![la.clone(), s(x)], Some(format!("c10 {PW} hl index {tok} {}", xs(x))));
+            t.add("List.contains", &[], "List.contains.host.String", "fn main(l: List[String], x: String) -> bool { l.contains(x) }", "lS,S>b",
+                format!("{c} item={xl} (String elements)"), vec![la.clone(), s(x)], Some(format!("c10 {PW} hl contains {tok} {}", xs(x))));
+        }
+        t.add("List.push", &[], "List.push.host.String", "fn main(l: List[String], x: String) -> List[String] { l.push(x); l }", "lS,S>lS",
+            format!("{c} (String elements)"), vec![la.clone(), s("new")], Some(format!("c10 {PW} hl push {tok} {}", xs("new"))));
+        for (mc, m) in &sl {
+            let mt = ls_tok(m);
+            t.add("List.concat", &[], "List.concat.host.String", "fn main(l: List[String], m: List[String]) -> List[String] { l.concat(m) }", "lS,lS>lS",
+                format!("{c} other={mc} (String elements)"), vec![la.clone(), ls(m)], Some(format!("c10 {PW} hl concat {tok} {mt}")));
+            t.add("List.get", &[], "List.eq.host.String", "fn main(l: List[String], m: List[String]) -> bool { l == m }", "lS,lS>b",
+                format!("{c} =={mc} (String elements)"), vec![la.clone(), ls(m)], Some(format!("c10 {PW} hl eq {tok} {mt}")));
+        }
+    }
+    // ---- lists created inside the script: empty (`List.new()`), literal, filtered down to nothing
+    for (sep, sc) in SEPARATORS {
+        t.add("List.join", &["List.new"], "List.join.fresh", "fn main(sep: String) -> String { let l: List[String] = List.new(); l.join(sep) }", "S>S",
+            format!("script-list empty {sc}"), vec![s(sep)], Some(format!("c10 {PW} hl join ls: {}", xs(sep))));
+        t.add("List.join", &["List.new", "List.push"], "List.join.literal1", "fn main(sep: String) -> String { [sep].join(sep) }", "S>S",
+            format!("script-list singleton {sc}"), vec![s(sep)], Some(format!("c10 {PW} hl join {} {}", ls_tok(&[sep]), xs(sep))));
+        t.add("List.join", &["List.new", "List.push"], "List.join.literal3", "fn main(sep: String) -> String { [\"a\", sep, \"\"].join(sep) }", "S>S",
+            format!("script-list many {sc}"), vec![s(sep)], Some(format!("c10 {PW} hl join {} {}", ls_tok(&["a", sep, ""]), xs(sep))));
+    }
+    // ---- List[char] built by the host: String.from_chars
+    let cls: [(&str, Vec<char>); 4] = [("empty", vec![]), ("singleton", vec!['a']), ("many", vec!['a', '\u{e9}', '\u{1f600}', '\0']), ("singleton-max", vec!['\u{10ffff}'])];
+    for (lc, l) in cls {
+        let tok = Arg::LC(l.clone()).encode();
+        t.add("String.from_chars", &[], "String.from_chars.host", "fn main(l: List[char]) -> String { String.from_chars(l) }", "lc>S",
+            format!("host-list {lc}"), vec![Arg::LC(l.clone())], Some(format!("c10 {PW} hl from_chars {tok}")));
+        t.add("List.len", &[], "List.len.host.char", "fn main(l: List[char]) -> u64 { l.len() }", "lc>u64",
+            format!("host-list {lc} (char elements)"), vec![Arg::LC(l.clone())], Some(format!("c10 {PW} hl len {tok}")));
     }
 }
 
